@@ -57,7 +57,7 @@ func TestSetComputeReadModifyWrite(t *testing.T) {
 		}
 		close(start)
 		desc := fmt.Sprintf("g=%d k=%d yields=%d appliers=%d", g, k, yields, appliers)
-		if !ctl.Within(ctl.HangTimeout, wg.Wait) {
+		if !ctl.WithinHang(wg.Wait) {
 			stats.Violation(check, map[string]any{"program": desc, "problem": "hang", "stacks": ctl.Dump()})
 			rt.Fatalf("%s: calls did not return within %v", desc, ctl.HangTimeout)
 		}
